@@ -99,6 +99,11 @@ CHECKS = {
                 text="25 scenarios covering the Container, Plate/slice and Recipe APIs: every argument (objects, lists, "
                      "slices incl. the plate they point to) has the same fingerprint after the call as before, on returning "
                      "and on raising paths, and still after a second operation has been applied to every returned object."),
+    'C18': dict(engine=E1, design='§4 C18',
+                technique="symbolic execution of each scenario under two module instances (two pyplate.yaml) on shared symbolic inputs in one z3 context; outputs and verdicts compared per joint path",
+                text="13 public-API scenarios under the shipped configuration and under 8 (thorough 19) alternative storage "
+                     "unit / precision settings: same accept/refuse verdict on every jointly feasible path and equal "
+                     "answers in user units (volumes, concentrations, plate observers, usage tracking)."),
     'C02': dict(engine=E1, design='§4 C02',
                 technique="symbolic execution of Container.transfer/Plate.transfer with z3 (QF_NRA/LRA), differential vs independent unit table",
                 text="size of the aliquot (in the unit of q), uniformity (cross-multiplied ratios) and destination gain "
